@@ -397,6 +397,10 @@ TIES = {
                      theorems=['not_matches_tie', 'deref_matches_tie', 'regex_check_tie'],
                      cxx='not_matcher::matches, ptr_deref::matches, regex_check (matcher/not.hpp, deref.hpp, re.hpp)'),
     'HandleIsOptional': dict(props=['C05'], theorems=['is_optional_tie'], cxx='sequence_matcher::is_optional (sequence.hpp)'),
+    'NoMatch': dict(props=['C01', 'C04', 'C08', 'C15'], gen=['MatchConditions', 'CallMatcherMatches', 'ReportMismatchMember', 'ReportMismatchFree', 'HookLast'],
+                    theorems=['match_conditions_eq', 'match_conditions_tie', 'matches_tie', 'report_mismatch_member_eq', 'report_mismatch_member_tie',
+                              'report_mismatch_free_eq', 'report_mismatch_free_tie', 'hook_last_tie'],
+                    cxx='call_matcher::match_conditions / matches / report_mismatch / hook_last and the free trompeloeil::report_mismatch (mock.hpp)'),
     'Ring': dict(props=['C14'], gen=['RingUnlink', 'RingElemDtor', 'RingMoveAssign', 'RingPushFront', 'RingPushBack', 'RingBegin', 'RingEnd',
                                     'RingIterIncr', 'RingIsLinked', 'RingListDtor'],
                  theorems=['ring_unlink_tie', 'ring_elem_dtor_tie', 'ring_move_assign_tie', 'ring_push_front_tie', 'ring_push_back_tie',
